@@ -31,6 +31,7 @@ func init() {
 			{"C19-R6", "recorded user overrides are consulted for every template container", c19r6},
 			{"C19-R7", "container lists are never sorted unstably", c19r7},
 			{"C19-R8", "the decision is taken on the pod with its namespace defaulted from the request", c19r8},
+			{"C19-R9", "global inputs of the injection decision are never edited", c19r9},
 		},
 	})
 }
@@ -642,4 +643,67 @@ func c19r8(c *Ctx) {
 	})
 	c.Check("the pod's namespace is defaulted from the request", fn.Pos(), n >= 1, "no store pod.Namespace = req.Namespace in Webhook.inject")
 	c.Floor(3)
+}
+
+// C19-R9: the injection decision's global inputs are never edited. injectRequired reads package-level sets
+// (IgnoredNamespaces ...); Insert / Delete / Merge / *InPlace on a sets.Set edit the receiver, so a caller that wants a
+// variant must copy first. Nowhere in the module is a mutating set method called with a package-level variable of
+// pkg/kube/inject as its receiver (and no map update / delete stores into one). Positive control: the globals are read.
+func c19r9(c *Ctx) {
+	p := c.P
+	isInjectGlobal := func(v ssa.Value) *ssa.Global {
+		u, ok := v.(*ssa.UnOp)
+		if !ok || u.Op != token.MUL {
+			return nil
+		}
+		g, ok := u.X.(*ssa.Global)
+		if !ok || g.Pkg == nil || g.Pkg.Pkg.Path() != istioMod+"/"+pkgInject {
+			return nil
+		}
+		if _, isMap := g.Type().(*types.Pointer).Elem().Underlying().(*types.Map); !isMap {
+			return nil
+		}
+		return g
+	}
+	mut := func(n string) bool {
+		return strings.HasPrefix(n, "Insert") || strings.HasPrefix(n, "Delete") || n == "Merge" || strings.HasSuffix(n, "InPlace")
+	}
+	nReads := 0
+	for _, fn := range p.AllFuncs {
+		if !isIstioFunc(fn) || isWrapperFn(fn) || len(fn.Blocks) == 0 || strings.HasSuffix(p.Fset.Position(fn.Pos()).Filename, "_test.go") {
+			continue
+		}
+		if fn.Name() == "init" && funcPkgPath(fn) == istioMod+"/"+pkgInject {
+			continue // the initialiser builds them
+		}
+		eachInstr(fn, func(ins ssa.Instruction) {
+			switch x := ins.(type) {
+			case *ssa.UnOp:
+				if isInjectGlobal(x) != nil {
+					nReads++
+				}
+			case *ssa.Call:
+				if len(x.Call.Args) == 0 {
+					return
+				}
+				g := isInjectGlobal(x.Call.Args[0])
+				if g == nil {
+					return
+				}
+				o := calleeObj(x)
+				if o == nil || !mut(o.Name()) {
+					return
+				}
+				c.Check("global inputs of the injection decision are not edited: "+g.Name()+" in "+stableFnName(fn), x.Pos(), false,
+					"the package-level set inject."+g.Name()+" is the receiver of "+o.Name()+", which edits it in place: the set is an input of injectRequired (never-inject namespaces), so after this code ran the same pod gets a different injection decision - which pods in kube-system are injected depends on which controllers this replica has started")
+			case *ssa.MapUpdate:
+				if g := isInjectGlobal(x.Map); g != nil {
+					c.Check("global inputs of the injection decision are not edited: "+g.Name()+" in "+stableFnName(fn), x.Pos(), false,
+						"a map update stores into the package-level set inject."+g.Name()+", an input of the injection decision")
+				}
+			}
+		})
+	}
+	c.Check("package-level sets of pkg/kube/inject are read (positive control)", token.NoPos, nReads >= 2, fmt.Sprintf("%d reads of package-level maps of pkg/kube/inject found", nReads))
+	c.Floor(1)
 }
